@@ -2,7 +2,10 @@
 //! `--cfg assets_manager_verif`) and writes what it observed as Coq case files, which the
 //! orchestrator evaluates against the reference model with `coqc`.
 mod answers;
+mod bytesdiff;
+mod ledger;
 mod loopdiff;
+mod oncediff;
 mod racediff;
 mod ridiff;
 mod rwdiff;
@@ -11,6 +14,9 @@ mod sysdiff;
 mod util;
 mod watchdiff;
 mod world;
+
+#[global_allocator]
+static LEDGER_ALLOC: ledger::Ledger = ledger::Ledger;
 
 fn main() {
     let a = util::Args::parse();
@@ -24,6 +30,8 @@ fn main() {
         "watchdiff" => watchdiff::run(&a),
         "racediff" => racediff::run(&a),
         "srcdiff" => srcdiff::run(&a),
+        "oncediff" => oncediff::run(&a),
+        "bytesdiff" => bytesdiff::run(&a),
         "answers-child" => std::process::exit(answers::child(&a)),
         other => {
             eprintln!("unknown engine {other}");
